@@ -385,6 +385,9 @@ pub mod seal;
 
 mod string_utils;
 
+#[cfg(feature = "verif_hooks")]
+pub mod verif_hooks;
+
 #[cfg(feature = "signature")]
 pub use bc_components::{Signer, Verifier};
 
